@@ -1,4 +1,4 @@
-import BumpVerif.Proofs.Frame
+import BumpVerif.Proofs.Live
 /-! # C08 — byte accounting matches what the arena really holds -/
 namespace Bump.C08
 open Bump Gen
@@ -28,6 +28,16 @@ theorem accounting {E a} (h : ArenaWF E a) :
   · intro hn
     unfold allocatedBytesIncludingMetadata
     rw [hab, hn]; simp [sumUsable]
+
+/-- **All histories.** After any admissible history (constructors, allocations, failed
+allocations, deallocate/grow/shrink, limit changes, resets, any number of times) both figures
+are exact. -/
+theorem history_accounting {E} (hE : EnvOK E) (ops : List Op) (y : Sys) (inv : LiveInv E y) (hrun : RunOK E ops y) :
+    allocatedBytesIncludingMetadata (sysRun E ops y).1.st.a E = sumSize (sysRun E ops y).1.st.a.chunks ∧
+    (sysRun E ops y).1.st.a.allocatedBytes E + (sysRun E ops y).1.st.a.chunks.length * FOOTER_SIZE
+      = sumSize (sysRun E ops y).1.st.a.chunks := by
+  have h := accounting (sysRun_live hE ops y inv hrun).1.wf
+  exact ⟨h.1, h.2.1⟩
 
 /-- An allocation that does not acquire a chunk changes neither figure. -/
 theorem alloc_frame {E sz al p} (f : Bool) (s : St) (hE : EnvOK E) (h : ArenaWF E s.a)
@@ -78,6 +88,7 @@ example : allocatedBytesIncludingMetadata ⟨1, [⟨4096, 496, 16, 4200, 448⟩]
 end Bump.C08
 
 #print axioms Bump.C08.accounting
+#print axioms Bump.C08.history_accounting
 #print axioms Bump.C08.alloc_frame
 #print axioms Bump.C08.failure_frame
 #print axioms Bump.C08.dealloc_frame
